@@ -2,7 +2,7 @@
 SPECIFICATION Spec
 CONSTANTS
   MaxNodes = 4  MaxDepth = 2
-  TopNames = {1,2,3,4,5,6,7,8,9,10,11,12}  InnerNames = {1,3,4,10,11,12}
+  TopNames = {1,2,3,4,5,6,7,8,9,10,11,12,13}  InnerNames = {1,3,4,10,11,12}
   Sel = 1  Mod = 1  Always = 2  PruneFrom = 2  PruneMod = 12
   NameUniverse <- AllNames
   PatUniverse <- AllPats
